@@ -72,9 +72,84 @@ def c13_stages(tier):
     return st
 
 
+# ------------------------------------------------------------------------------------------ AffTree operations
+def afftree_nontrivial(s):
+    # non-trivial: the left operand has at least one decision and (binary ops) the right operand has at least one decision
+    if len(s.get('lhs', [])) < 2:
+        return None
+    if s.get('op') in ('compose', 'compose_prune', 'add', 'sub', 'mul', 'div') and len(s.get('rhs', [])) < 2:
+        return None
+    return {k: v for k, v in s.items() if k not in ('sc', 'exp')}
+
+
+def AT(name, cfg, **kw):
+    return Stage(name, 'Trace_AffTree', mc=('MC_AffTree', cfg), nontrivial=afftree_nontrivial, shard_events=400, mc_workers=12, **kw)
+
+
+def c02_stages(tier):
+    st = [AT('compose-q', 'MC_AffTree_compose_q.cfg'), AT('compose-dim', 'MC_AffTree_compose_dim.cfg'),
+          AT('compose-k4', 'MC_AffTree_compose_k4.cfg')]
+    if tier == 'thorough':
+        st += [AT('compose-t', 'MC_AffTree_compose_t.cfg'), AT('compose-dimt', 'MC_AffTree_compose_dimt.cfg'),
+               AT('compose-k4t', 'MC_AffTree_compose_k4t.cfg')]
+    return st
+
+
+def c07_stages(tier):
+    st = [AT('arith-q', 'MC_AffTree_arith_q.cfg'), AT('arithaff-q', 'MC_AffTree_arithaff_q.cfg')]
+    if tier == 'thorough':
+        st += [AT('arith-t', 'MC_AffTree_arith_t.cfg')]
+    return st
+
+
+def c08_stages(tier):
+    st = [AT('reduce-q', 'MC_AffTree_reduce_q.cfg')]
+    if tier == 'thorough':
+        st += [AT('reduce-t', 'MC_AffTree_reduce_t.cfg')]
+    return st
+
+
+AFFTREE_NOTE = ('Small scope: integer data (E-universe, exact f64 arithmetic, checked per node by an exactness bit), input dimension <= 2, '
+                'operand trees with <= 2-4 decisions from small alphabets; trusted: TLC, the FM decision procedure (validated by '
+                'spec/SelfTest.tla at setup), the JSON projection of the harness.')
+
 NOT_APPLICABLE = {}
 
 CHECKS = {
+    'C02': {
+        'stages': c02_stages,
+        'level_text': 'The grafting composition algorithm (spec/AffTreeL1.tla, written step for step like generic_composition_inplace) is '
+                      'model-checked against the L0 composition law on piece sets (definedness included) for all operand pairs from the '
+                      'alphabets (total/partial, K in {2,4}, dimension-changing maps, several arena layouts); every pair is replayed on the '
+                      'real crate and TLC decides h = g after f on the recorded trees by Fourier-Motzkin (all real inputs, boundaries '
+                      'included), plus the implementation\'s own evaluate() on a grid, right operand unchanged, indices kept.',
+        'level_note': AFFTREE_NOTE,
+        'design_ref': 'DESIGN.md 6/C02',
+        'rule': 'one script per (left tree, layout, right tree); non-trivial = both operands contain a decision',
+        'assumptions': ['E-universe integer data; q=1'],
+    },
+    'C07': {
+        'stages': c07_stages,
+        'level_text': 'Tree arithmetic (the composition loop with the arithmetic schemas and on-the-fly pruning) is model-checked against the '
+                      'point-wise lifting LiftPieces for all operand pairs x {+,-,*,/}; every pair is replayed in all four ownership variants '
+                      '(&a op &b, a op &b, a op b, &a op b) and TLC decides equality with the lifting on the recorded trees by FM (differences '
+                      'tolerated only on regions with empty interior, which pruning may drop), plus evaluate() on a grid.',
+        'level_note': AFFTREE_NOTE + ' Division only over alphabets without zero divisors and with exact quotients.',
+        'design_ref': 'DESIGN.md 6/C07',
+        'rule': 'one script per (a, b, op), four events (ownership variants) each; non-trivial = both operands contain a decision',
+        'assumptions': ['E-universe integer data; q=1', '* and / are coefficient-wise as the library defines them'],
+    },
+    'C08': {
+        'stages': c08_stages,
+        'level_text': 'reduce (reverse-BFS merge of identical terminal siblings) is model-checked for function preservation, size, '
+                      'idempotence and absence of mergeable pairs on all trees with <= 3 (4) decisions over terminals that differ only in bias '
+                      'or one coefficient; every tree is replayed and TLC checks the same formulas plus "only uniform total subtrees '
+                      'disappear" on the recorded pre/post trees.',
+        'level_note': AFFTREE_NOTE,
+        'design_ref': 'DESIGN.md 6/C08',
+        'rule': 'one script per (tree, layout); non-trivial = the tree has at least one decision',
+        'assumptions': ['E-universe integer data; q=1'],
+    },
     'C13': {
         'stages': c13_stages,
         'level': 'model_checking',
